@@ -399,8 +399,8 @@ def unaryOpMerges (op : OpTok) (operand : Expr) : Bool :=
 def iparens (l : Items) : Items := [(false, .op .lparen)] ++ l ++ [(false, .op .rparen)]
 
 /-- `exprRaw`/`binaryExpr` with the explicit blanks (`printBlank := prec < cutoff`).  `guard`
-switches on the separation guard in the UnaryExpr arm that cue/format/node.go does NOT have on the
-unchanged tree (see `v1GuardEnabled`). -/
+= the separation guard in the UnaryExpr arm (`unaryOpMergesWithOperand`, present since fix ab8529a;
+see `v1GuardEnabled`). -/
 def fmt1 (guard : Bool) : Nat → Nat → Expr → Items
   | _, _, .atom a => [(false, .atom a)]
   | p, depth, .bin o x y =>
@@ -433,10 +433,11 @@ def applyMayCombine : Option Tok → Items → Items
   | none, (b, t) :: r => (b, t) :: applyMayCombine (some t) r
   | some p, (b, t) :: r => (b || mayCombine p t, t) :: applyMayCombine (some t) r
 
-/-- THE SWITCH: `false` = cue/format/node.go as it is on the unchanged tree (no guard in the
-UnaryExpr arm); flip to `true` when the fix (mirror internal/pretty's `unaryOpMergesWithOperand`)
-is applied to cue/format/node.go. -/
-def v1GuardEnabled : Bool := false
+/-- THE SWITCH. `true` = cue/format/node.go since the fix ab8529a: the UnaryExpr arm of `exprRaw`
+prints a blank after the operator when `unaryOpMergesWithOperand(x.Op, x.X)` (a copy of
+internal/pretty's) holds. `false` was the printer before the fix (no guard), kept only for the
+statements about the OLD policy in Props/C08.lean. -/
+def v1GuardEnabled : Bool := true
 
 def fmtV1g (guard : Bool) (e : Expr) : Items := applyMayCombine none (fmt1 guard lowestPrec 1 e)
 
